@@ -11,10 +11,10 @@ func init() {
 			"liveness (admission of waiters, wake-ups) beyond the safety formulations in the contracts: bounded schedule exploration only (at most 4 threads, capped enumeration)",
 			"go-statement lowering, atomics lowering tables and the hardware/LLVM memory model; sync.Mutex/RWMutex/WaitGroup/Once code of the standard library itself",
 		}}
-	PropConfigs["C06"] = &PropConfig{ID: "C06", Modules: []Module{rtModule}, Specs: []string{"common.smt2"}, Post: c06MapBounded,
+	PropConfigs["C06"] = &PropConfig{ID: "C06", Modules: []Module{rtModule}, Specs: []string{"common.smt2"}, Post: func(ck *Checker, rep *Report, opts *Options) { c06MapBounded(ck, rep, opts); c06KeyKinds(ck, rep, opts) },
 		Undecided: []string{
-			"the finite-map refinement of mapassign/mapaccess/mapdelete/mapclear/evacuate/mapiternext beyond the stated bound (bounded stand-in only: uint64 keys and values, no indirect keys/elems, no NaN keys)",
-			"typehash/structequal/arrayequal recursion over type descriptors; mapclone/keys/values; reflect entry points",
+			"the finite-map refinement of mapassign/mapaccess/mapdelete/mapclear/evacuate/mapiternext beyond the stated bounds (bounded stand-ins only: uint64 keys under adversarial hash functions; struct/string/float/interface keys through the real typehash and equality functions; no indirect keys/elems, no NaN keys)",
+			"typehash/structequal/arrayequal recursion over type descriptors beyond the key types of the bounded run; mapclone/keys/values; reflect entry points",
 		}}
 	PropConfigs["C07"] = &PropConfig{ID: "C07", Modules: []Module{rtModule}, Specs: []string{"common.smt2"},
 		Post: func(ck *Checker, rep *Report, opts *Options) {
@@ -22,7 +22,7 @@ func init() {
 				return
 			}
 			runBounded(rep, opts, "c07", map[string]string{"ssa/abi/zz_verif_names_test.go": "harness/c07_names_test.go"}, []string{"./ssa/abi/"}, "TestZZVerifTypeNames",
-				[]string{"VERIF_C07=1"}, 1, "descriptor-name-iff-identical", "a fixed family of 56 types (1540 pairs) varying every attribute of Go type identity")
+				[]string{"VERIF_C07=1"}, 1, "descriptor-name-iff-identical", "a fixed family of 79 types (3081 pairs) varying every attribute of Go type identity, incl. function-local types of equal name in different functions and block scopes, local aliases and generic instantiations taken from type-checked source")
 			// same question asked of the whole naming pipeline: Go type -> raw type (Program.Type) -> descriptor name
 			runBounded(rep, opts, "c07p", map[string]string{"ssa/zz_verif_pipeline_names_test.go": "harness/c07_pipeline_test.go"}, []string{"./ssa/"}, "TestZZVerifPipelineTypeNames",
 				[]string{"VERIF_C07=1"}, 1, "descriptor-name-iff-identical", "a fixed family of 78 types (3003 pairs): the 56 above plus signatures whose parameters/results need the raw conversion (function-typed and named-function-typed parameters, variadic vs slice, nested in slice/pointer/map/chan/struct/interface)",
